@@ -324,3 +324,28 @@ def native_samples(reg, rnd, n):
         jobs.append({"id": f"e{i}", "file": PIO, "unit": "ensure_pio", "params": {}, "self": None,
                      "ghost": {"fail_version": bool(i & 1), "E": []}})
     return jobs
+
+
+def extra_obligations(mods, tier, seed):
+    """the callee contracts this proof rests on (write_project, validate_platform_board: owned by C13) are re-proved here from the
+    current source, so that "the configuration names exactly the given port, platform, board and libraries" is not an unchecked
+    assumption of this check"""
+    from pyvc import prove, loader
+    reg = c13.build()
+    files = sorted({f for (f, _) in reg.contracts if f != "<extern>"})
+    mods13 = loader.load(files)
+    out = []
+    for q in ("validate_platform_board", "write_project"):
+        c = reg.lookup(PIO, q)
+        for variant in prove.variant_space(c, None, False, False):
+            r = prove.prove_variant(reg, mods13, PIO, q, variant, 30000 if tier == "thorough" else 15000, prefix="C12/dep-C13/", extra_setup=c13.engine_setup)
+            if r.status != "ok":
+                out.append({"name": f"C12/dep-C13/{q}[{r.variant}]/unit", "status": "unknown", "backend": "pyvc", "where": f"tool limit: {r.detail}", "time": r.time})
+            for o in r.obligations:
+                if o["name"].endswith("/mustfail"):
+                    continue
+                out.append({"name": o["name"], "status": o["status"], "backend": o.get("backend") or "z3", "where": o.get("where"), "time": o.get("time", 0.0),
+                            "model": o.get("model"), "reason": o.get("reason")})
+    return out
+
+
